@@ -18,7 +18,7 @@ if REPO != "/repo":
     sys.path.insert(0, REPO)
 sys.path.insert(0, VERIF)
 
-from pyvc.state import Universe, OutOfSubset          # noqa: E402
+from pyvc.state import Universe, OutOfSubset, Obligation   # noqa: E402
 from pyvc.execs import Exec                            # noqa: E402
 from pyvc import solve, extract, native                # noqa: E402
 
@@ -48,6 +48,7 @@ def run(prop, tier="quick", seed=0):
         uni.load_sidecar(m)
     undecided = []
     obls = []
+    presolved = []
     functions = []
     targets = mod.targets(uni, tier) if hasattr(mod, "targets") else mod.TARGETS
     for key in targets:
@@ -61,10 +62,29 @@ def run(prop, tier="quick", seed=0):
             functions.append({"function": key, "module": con.get("module") or uni.modules.get(key.rpartition(".")[0]),
                               "source_hash": extract.src_hash(ex.fn), "obligations": len(got)})
         except OutOfSubset as e:
-            undecided.append("%s: out of subset: %s" % (key, e))
+            # the code (or the sidecar w.r.t. changed code) left the subset: not a verdict by itself.
+            # Ask the refuter: a failing input on the real function is a violation; otherwise undecided.
+            wit = None
+            if hasattr(mod, "refute"):
+                class _Ob:          # noqa
+                    func = key
+                    name = key + "/out-of-subset"
+                    detail = str(e)
+                try:
+                    wit = mod.refute(uni, _Ob, os.path.join(VERIF, "replay", prop))
+                except Exception:      # noqa
+                    wit = None
+            if wit:
+                ob = Obligation(key + "/contract-not-applicable-to-changed-code", [], None, kind="vc", func=key)
+                ob.status, ob.backend, ob.detail, ob.goal = "unknown", "native-refuter", "out of subset: %s" % e, "n/a"
+                ob.witness = wit
+                obls.append(ob)
+                presolved.append(ob)
+            else:
+                undecided.append("%s: out of subset: %s" % (key, e))
         except extract.Missing as e:
             undecided.append("%s: contract target missing: %s" % (key, e))
-    solve.discharge(obls)
+    solve.discharge([o for o in obls if o not in presolved])
     extras = []
     if hasattr(mod, "extra"):
         try:
@@ -101,8 +121,8 @@ def run(prop, tier="quick", seed=0):
 
     refute = getattr(mod, "refute", None)
     for ob in failed:
-        wit = None
-        if refute is not None:
+        wit = getattr(ob, "witness", None)
+        if refute is not None and wit is None:
             try:
                 wit = refute(uni, ob, replay_dir)
             except Exception:      # noqa
